@@ -309,6 +309,15 @@ def run(ctx: Ctx) -> int:
                   f"ds.SelectMany(lambda e: e.{C}('A')).Select(lambda j: (PairColl(j).Count(), PairColl(j).Select(lambda p: p.second).Sum()))",
                   f"ds.Select(lambda e: e.{C}('A').Where(lambda j: GoodTracks(j).Count() > 0).Select(lambda j: GoodTracks(j).First().eta()))"):
             cases.append(diff.Case(backend, q, evs, diff.members_used(s, q) + coll_fns, tag={"builtin": True, "method": False, "collection_function": True}, extra_globals=cg))
+        # a function supplied under the NAME of a built-in plug-in (the README's own example is called DeltaR): the supplied code is
+        # what a call becomes
+        own_dr = {"metadata_type": "add_cpp_function", "name": "DeltaR", "include_files": ["cmath"], "arguments": ["eta1", "phi1", "eta2", "phi2"],
+                  "code": ["auto d_eta = eta1 - eta2;", "auto d_phi = phi1 - phi2;", "auto result = std::sqrt(d_eta*d_eta + d_phi*d_phi) + 100.0;"], "return_type": "double"}
+        import math as _m
+        own = lambda e1, p1, e2, p2: _m.sqrt((e1 - e2) ** 2 + (p1 - p2) ** 2) + 100.0   # noqa: E731
+        for q in (f"ds.SelectMany(lambda e: e.{C}('A')).Select(lambda j: DeltaR(j.eta(), j.phi(), 0.5, 3.0))",
+                  f"ds.Select(lambda e: e.{C}('A').Where(lambda j: DeltaR(j.eta(), j.phi(), 0.0, 0.0) > 101.0).Count())"):
+            cases.append(diff.Case(backend, q, evs, diff.members_used(s, q) + [own_dr], tag={"builtin": True, "method": False, "own_function_named_like_builtin": True}, extra_globals={"DeltaR": own}))
         # two functions whose headers share a FILE NAME (PkgA/helpers.h, PkgB/interface/helpers.h): each needs its own
         twin = [{"metadata_type": "add_cpp_function", "name": "HelpA", "include_files": ["PkgA/helpers.h"], "arguments": ["x"], "code": ["auto result = pkga::twice(x);"], "return_type": "double"},
                 {"metadata_type": "add_cpp_function", "name": "HelpB", "include_files": ["PkgB/interface/helpers.h", "cmath"], "arguments": ["x"], "code": ["auto result = pkgb::thrice(x);"], "return_type": "double"}]
